@@ -148,6 +148,7 @@ package segmenter
 //@ spec wbHigh(cr *cursor, i int) bool = (cr.prev == 0x0D && cr.r == 0x0A) || (cr.prevWord == ucd.WordBreakNewlineCRLF && cr.prevWordNoExtend == i-1) || cr.word == ucd.WordBreakNewlineCRLF || (cr.prev == 0x200D && cr.isExtentedPic) || (cr.prevWord == ucd.WordBreakWSegSpace && cr.word == ucd.WordBreakWSegSpace && cr.prevWordNoExtend == i-1) || cr.word == ucd.WordBreakExtendFormat
 //@ func cursor.applyWordBoundaryRules C06
 //@   mode int
+//@   requires [index] 0 <= i
 //@   ensures [wb3] implies(cr.prev == 0x0D && cr.r == 0x0A, !isWordBoundary)
 //@   ensures [wb3a-3b] implies(!(cr.prev == 0x0D && cr.r == 0x0A) && ((cr.prevWord == ucd.WordBreakNewlineCRLF && cr.prevWordNoExtend == i-1) || cr.word == ucd.WordBreakNewlineCRLF), isWordBoundary)
 //@   ensures [wb4] implies(!(cr.prevWord == ucd.WordBreakNewlineCRLF && cr.prevWordNoExtend == i-1) && cr.word == ucd.WordBreakExtendFormat, !isWordBoundary)
